@@ -18,6 +18,7 @@ package main
 
 import (
 	"bufio"
+	"bytes"
 	"crypto/sha1"
 	"fmt"
 	"io"
@@ -494,6 +495,13 @@ func c05BkExec(st *c05BkState, line string) string {
 		st.f = xl.NewFile()
 		return c05DumpBook(st.f)
 	}
+	if w[0] == "bk.load" {
+		// the state was taken from a real workbook (st.f set by the caller): answer with its dump
+		if st.f == nil {
+			return "bad-op"
+		}
+		return c05DumpBook(st.f)
+	}
 	if w[0] == "bk.trim" {
 		var rows [][]int
 		for _, t := range a {
@@ -610,6 +618,28 @@ func c05Bookkeeping(r *Run, rng *Rng, rounds int) {
 		c05BkOp(r, st, "bk.setovr "+ovrDrawing+" "+ovrComments)
 		c05BkOp(r, st, "bk.addct 1 "+hx(kind))
 		c05BkOp(r, st, "bk.addct 2 "+hx(kind))
+	}
+	// states the library cannot be driven into from NewFile: a workbook whose sheet ids and part
+	// numbers disagree (sheets re-ordered by another producer), loaded into the model by `bk.load`
+	if base := c05SynthBase(0); base != nil {
+		for variant := 0; variant < 2; variant++ {
+			if st.f != nil {
+				st.f.Close()
+			}
+			f, err := xl.OpenReader(bytes.NewReader(c05SwapSheetIDs(base)))
+			if err != nil {
+				break
+			}
+			st.f = f
+			c05BkOp(r, st, "bk.load "+c05DumpBook(f))
+			if variant == 0 {
+				c05BkOp(r, st, "bk.delsheet "+hx("Sheet1")) // the sheet with the larger id (2, part sheet1.xml)
+			}
+			c05BkOp(r, st, "bk.newsheet "+hx("New"))
+			c05BkOp(r, st, "bk.newsheet "+hx("New2"))
+			c05BkOp(r, st, "bk.delsheet "+hx("Data"))
+			c05BkOp(r, st, "bk.newsheet "+hx("New3"))
+		}
 	}
 	for round := 0; round < rounds; round++ {
 		c05BkOp(r, st, "bk.new")
